@@ -131,5 +131,5 @@ pub fn def_sub(tier: Tier) -> Box<dyn DynSub> {
         prop_oneof![1u16..5, 1u16..100, Just(3000u16)],
         steps,
     );
-    sub("incremental_index", tier.pick(40_000, 1_000_000), strat, check).rates(&[("query", 0.3), ("window_change", 0.2), ("filter_keeps_10_90_percent", 0.15), ("no_active_filters", 0.05)]).boxed()
+    sub("incremental_index", tier.pick(300_000, 4_000_000), strat, check).rates(&[("query", 0.3), ("window_change", 0.2), ("filter_keeps_10_90_percent", 0.15), ("no_active_filters", 0.05)]).boxed()
 }
